@@ -806,6 +806,7 @@ package tds
 //@ # packages, and the synthetic final DONE only at the end of a message whose last
 //@ # delivered package was not already a final DONE
 //@ func (*Channel).tryParsePackage returns (ok)
+//@   onsend [no-envchange-no-info-message] !is(sent, *EnvChangePackage) && !(is(sent, *EEDPackage) && eedinfo(as(sent, *EEDPackage).Status))
 //@   onsend [only-parsed-or-synthetic-done] sent.$parsed || (is(sent, *DonePackage) && as(sent, *DonePackage).Status == 0)
 //@   onsend [synthetic-done-only-at-end-of-message] !sent.$parsed ==> tdsChan.queueRx.recvEOM && tdsChan.queueRx.$r == tdsChan.queueRx.$end && !(is(tdsChan.lastPkgRx, *DonePackage) && as(tdsChan.lastPkgRx, *DonePackage).Status == 0)
 
@@ -869,3 +870,27 @@ package tds
 //@ # except header-only notifications and the synthetic final DONE was parsed completely
 //@ chaninv Channel.packageCh [no-typed-nil] tag(v) == 0 || payload(v) != 0
 //@ chaninv Channel.packageCh [parsed] tag(v) != 0 && !is(v, HeaderOnlyPackage) && !(is(v, *DonePackage) && !v.$parsed) ==> v.$parsed && v.$ready
+
+//@ # ---------------------------------------------------------------------
+//@ # Server messages and environment changes (C11)
+//@ # $eedcalls / $envcalls: number of hook invocations made for this channel
+//@ ghost field Channel.$eedcalls int
+//@ ghost field Channel.$envcalls int
+//@ pred eedinfo(s EEDStatus) { (s / 2) % 2 == 1 }
+//@ func (*Channel).callEEDHooks
+//@   modifies tdsChan.$eedcalls
+//@   ghost-update at after functype:tds.EEDHook#1: tdsChan.$eedcalls := tdsChan.$eedcalls + 1
+//@   ensures [every-hook-once] tdsChan.$eedcalls == old(tdsChan.$eedcalls) + len(tdsChan.eedHooks)
+//@   loop 0:
+//@     invariant [count] 0 <= rangeindex + 1 && rangeindex + 1 <= len(tdsChan.eedHooks) && tdsChan.$eedcalls == old(tdsChan.$eedcalls) + rangeindex + 1
+//@ func (*Channel).callEnvChangeHooks
+//@   modifies tdsChan.$envcalls
+//@   ghost-update at after functype:tds.EnvChangeHook#1: tdsChan.$envcalls := tdsChan.$envcalls + 1
+//@   ensures [every-hook-once] tdsChan.$envcalls == old(tdsChan.$envcalls) + len(tdsChan.envChangeHooks)
+//@   loop 0:
+//@     invariant [count] 0 <= rangeindex + 1 && rangeindex + 1 <= len(tdsChan.envChangeHooks) && tdsChan.$envcalls == old(tdsChan.$envcalls) + rangeindex + 1
+//@ func (*Channel).handleSpecialPackage returns (pass, err)
+//@   ensures [envchange-consumed] is(pkg, *EnvChangePackage) ==> !pass
+//@   ensures [info-message-consumed] is(pkg, *EEDPackage) && eedinfo(as(pkg, *EEDPackage).Status) ==> !pass && err == nil && tdsChan.$eedcalls == old(tdsChan.$eedcalls)
+//@   ensures [message-surfaced-once] is(pkg, *EEDPackage) && !eedinfo(as(pkg, *EEDPackage).Status) ==> pass && err == nil && tdsChan.$eedcalls == old(tdsChan.$eedcalls) + len(tdsChan.eedHooks)
+//@   ensures [others-pass] !is(pkg, *EnvChangePackage) && !is(pkg, *EEDPackage) ==> pass && err == nil && tdsChan.$eedcalls == old(tdsChan.$eedcalls) && tdsChan.$envcalls == old(tdsChan.$envcalls)
